@@ -1,149 +1,57 @@
 """Per-property check definitions: which model families are run and how their findings are attributed."""
 import json, os
 from . import common
-from .common import tlc, harness, read_ndjson, workdir, log, SPEC
-
-# --------------------------------------------------------------------------------------------
-# MC_Cgt families.  Every family is one TLC configuration of spec/MC_Cgt.tla (written to
-# spec/cfg/<name>.cfg so it can be inspected and run by hand) plus the way its behaviours are
-# rendered for the implementation.
-
-CGT_INVARIANTS = ('ClaimsWithinBought PoolNonNeg S104Covers LegsSumToSold HoldIsClosedForm HoldDecomposition '
-                  'FailIffUncovered LegOrder WindowEdge PoolOnlyWhenWindowExhausted CostConservedAtEnd ClosingHolding '
-                  'EmitReplay')
-CGT_PROPS = 'SplitMovesNoMoney OthersUntouched LegsAppendOnly'
-
-
-def set_(xs):
-    return '{' + ', '.join(str(x) for x in xs) + '}'
-
-
-def cgt_cfg(secs='SecSeqA', dayset=1, buy=(0, 1, 2), sell=(0, 1, 2), qden=1, splits=(), maxsplits=0,
-            events=(), maxevents=0, grid=1, maxcells=0, timings=('"end"',)):
-    return f'''SPECIFICATION MCSpec
-CONSTANTS
-  SecSeq <- {secs}
-  N <- MC_N
-  DayNo <- MC_DayNo
-  Timings = {set_(timings)}
-  DaySet = {dayset}
-  BuyQs = {set_(buy)}
-  SellQs = {set_(sell)}
-  QDen = {qden}
-  SplitKinds = {set_(splits)}
-  MaxSplits = {maxsplits}
-  EventKinds = {set_(events)}
-  MaxEvents = {maxevents}
-  DistGrid = {grid}
-  MaxCells = {maxcells}
-  Emit = TRUE
-INVARIANTS
-  {CGT_INVARIANTS}
-PROPERTIES
-  {CGT_PROPS}
-CHECK_DEADLOCK FALSE
-'''
-
-
-BOTH = ('"end"', '"start"')
-
-# name -> (cfg kwargs, harness variants, number of base dates)
-CGT_FAMILIES = {
-    # one security, five day slots around the 30/31-day edge, every cell 0..2: 59,049 ledgers
-    'core_q': (dict(dayset=1), 'none', 2),
-    # fractional quantities (halves) on the short window 0,1,31,32
-    'frac_q': (dict(dayset=3, buy=(0, 1, 3), sell=(0, 1, 3), qden=2), 'none', 1),
-    # splits / unsplits at every position: one split cell, ratios 2, 3, 1/2, 3/2
-    'split_q': (dict(dayset=3, splits=(1, 2, 3, 4), maxsplits=1, timings=BOTH), 'none', 1),
-    # eight slots, at most 6 non-empty cells, quantities 0..3
-    'core_t': (dict(dayset=2, buy=(0, 1, 2, 3), sell=(0, 1, 2, 3), maxcells=5), 'none', 6),
-    'split_t': (dict(dayset=1, buy=(0, 1, 2), sell=(0, 1, 2), splits=(1, 2, 3, 4), maxsplits=2, maxcells=5,
-                     timings=BOTH), 'none', 2),
-    # line order / fill splitting: same ledgers, many renderings
-    'order_q': (dict(dayset=3), 'all', 1),
-    'order_t': (dict(dayset=1), 'all', 1),
-}
-
-_family_cache = {}
-
-
-def write_cfg(name, text):
-    d = os.path.join(SPEC, 'cfg')
-    os.makedirs(d, exist_ok=True)
-    p = os.path.join(d, name + '.cfg')
-    if not os.path.exists(p) or open(p).read() != text:
-        open(p, 'w').write(text)
-    return os.path.join('cfg', name + '.cfg')
-
-
-def cgt_family(name):
-    if name in _family_cache:
-        return _family_cache[name]
-    kw, variants, bases = CGT_FAMILIES[name]
-    cfg = write_cfg('MC_Cgt_' + name, cgt_cfg(**kw))
-    m = tlc('MC_Cgt', cfg, workers=8, timeout=3000)
-    log(f'[tlc] MC_Cgt/{name}: {m["states"]} distinct states, {m["transitions"]} transitions, depth {m["depth"]}'
-        f' ({"cached" if m["cached"] else str(m["wall_s"]) + "s"})')
-    wd = workdir('cgt_' + name)
-    out = os.path.join(wd, 'findings.ndjson')
-    s = harness('replay_cgt', ['--in', m['out'], '--out', out, '--bases', str(bases), '--variants', variants])
-    r = {'name': name, 'tlc': m, 'summary': s, 'findings': read_ndjson(out)}
-    log(f'[replay] MC_Cgt/{name}: {s["records"]} behaviours, {s["counters"].get("executions", 0)} executions, '
-        f'{s["findings"]} deviations')
-    _family_cache[name] = r
-    return r
-
-
-def combine(fams, nontrivial_key, rule, exhaustive=True, assumptions=None):
-    findings = []
-    cov = {'states': 0, 'transitions': 0, 'traces_validated_against_impl': 0, 'evaluations': 0,
-           'distinct_nontrivial': 0, 'rule': rule, 'samples': [], 'exhaustive': exhaustive, 'families': {}}
-    for f in fams:
-        findings += f['findings']
-        c = f['summary']['counters']
-        cov['states'] += f['tlc']['states']
-        cov['transitions'] += f['tlc']['transitions']
-        cov['traces_validated_against_impl'] += c.get('executions', 0)
-        cov['evaluations'] += c.get('executions', 0)
-        cov['distinct_nontrivial'] += c.get(nontrivial_key, 0)
-        cov['samples'] += f['summary'].get('samples', [])[:2]
-        cov['families'][f['name']] = {'tlc_states': f['tlc']['states'], 'tlc_from_cache': f['tlc']['cached'],
-                                      'behaviours': f['summary']['records'], 'counters': c}
-    base = ['TLC 1.8.0 explored the bounded model exhaustively (constants in spec/cfg/*.cfg); TLC results are cached by a '
-            'digest of spec/*.tla + cfg because they do not depend on /repo',
-            'implementation observed through cgt_core::calculator::calculate built from /repo\'s working tree',
-            'tolerance 1e-12 on full-precision figures, 1e-9 on disposal proceeds (rounded to 10 dp by the code)']
-    return {'findings': findings, 'coverage': cov, 'assumptions': base + (assumptions or [])}
-
-
-def fam_list(tier, quick, thorough):
-    return [cgt_family(n) for n in (quick if tier == 'quick' else quick + thorough)]
+from .cgt import cgt_family, combine, fam_list
 
 
 def c01(tier, seed):
-    return combine(fam_list(tier, ['core_q', 'frac_q', 'split_q'], ['core_t', 'split_t']), 'multi_leg_disposals',
+    return combine(fam_list(tier, ['core_q', 'frac_q', 'split_q'], ['core_t', 'split_t', 'two_q']), 'multi_leg_disposals',
                    'every cell ledger of the family (TLC-enumerated) x base dates; non-trivial = ledgers with a disposal '
                    'identified by two or more legs')
 
 
 def c02(tier, seed):
-    return combine(fam_list(tier, ['core_q', 'frac_q', 'split_q'], ['core_t', 'split_t']), 'covered',
+    return combine(fam_list(tier, ['core_q', 'frac_q', 'split_q'], ['core_t', 'split_t', 'events_q']), 'covered',
                    'every cell ledger of the family; non-trivial = accepted (covered) ledgers, on which the three '
                    'conservation equalities are evaluated on the implementation\'s own report')
 
 
 def c03(tier, seed):
-    return combine(fam_list(tier, ['core_q', 'frac_q', 'split_q'], ['core_t', 'split_t']), 'covered',
-                   'every cell ledger of the family; non-trivial = accepted ledgers (legs + closing cost vs expenditure)')
+    return combine(fam_list(tier, ['core_q', 'split_q', 'events_q'], ['core_t', 'split_t', 'events_t', 'events_split_t']), 'covered',
+                   'every cell ledger of the family; non-trivial = accepted ledgers (legs + closing cost vs expenditure); '
+                   'for ledgers with capital events TLC re-runs the specification on the observed apportionment')
 
 
 def c05(tier, seed):
-    return combine(fam_list(tier, ['core_q', 'frac_q', 'split_q'], ['core_t', 'split_t']), 'uncovered',
+    return combine(fam_list(tier, ['core_q', 'frac_q', 'split_q'], ['core_t', 'split_t', 'two_q']), 'uncovered',
                    'every cell ledger of the family, covered or not; non-trivial = uncovered ledgers (must be refused '
                    'naming security and date); covered ones must be accepted')
 
 
-PROPS = {'C01': c01, 'C02': c02, 'C03': c03, 'C05': c05}
+def c06(tier, seed):
+    return combine(fam_list(tier, ['order_q', 'order_split_q'], ['order_t', 'two_t']), 'variant_comparisons',
+                   'every cell ledger of the family rendered in canonical order and as reversed / sells-first / '
+                   'actions-first / two seeded shuffles / adjacent and separated half fills / lower-case tickers; '
+                   'non-trivial = implementation-vs-implementation comparisons of a variant with the canonical rendering',
+                   assumptions=['file partitions are exercised by the CLI check (C15/C06 cli family)'])
+
+
+def c09(tier, seed):
+    return combine(fam_list(tier, ['two_q'], ['two_t']), 'covered',
+                   'two-security cell ledgers (TLC checks OthersUntouched on every step); each security\'s legs, costs and '
+                   'holding must equal the single-security specification outcome whatever the other security does and '
+                   'wherever its lines sit; non-trivial = accepted ledgers')
+
+
+def c11(tier, seed):
+    return combine(fam_list(tier, ['events_q'], ['events_t', 'events_split_t']), 'with_events',
+                   'cell ledgers with a capital return / accumulation cell at every position; TLC judges the observed '
+                   'per-lot apportionment (never on later acquisitions, sums to the net amount, nothing negative); '
+                   'conservation of the amount, s122 refusal of unabsorbable returns, dividend inertness; '
+                   'non-trivial = ledgers with a cost event')
+
+
+PROPS = {'C01': c01, 'C02': c02, 'C03': c03, 'C05': c05, 'C06': c06, 'C09': c09, 'C11': c11}
 
 
 def replay(prop, path):
